@@ -4,13 +4,13 @@ SPECIFICATION Spec
 CONSTANTS
   OffsMod = 65536
   Part = "allpairs"
-  FlagSet <- FlagsLists
+  FlagSet <- FlagsDrift
   SchI = {1}
   UsrI = {2}
   PwI = {1}
   HostI = {1}
   PortI = {1}
-  PNameI = {1, 7}
+  PNameI = {7}
   PValI = {2, 4}
   KP = 2
   HNameI = {1, 2}
